@@ -112,6 +112,8 @@ def gen_case(rng, tier):
         k = rng.randrange(K)
         kind = rng.choice(("fit", "fit", "transform", "transform", "fit_transform", "transform2"))
         op = {"inst": k, "op": kind, "data": rng.randrange(n_data)}
+        if insts[k]["type"] == "imager" and rng.random() < 0.2:
+            op["alias"] = rng.randrange(4)        # the collection lists one of its array objects a second time
         if insts[k]["type"] == "imager" and kind in ("transform", "transform2"):
             op["n_jobs"] = rng.choice((None, None, 2, 3, 1))
         ops.append(op)
@@ -274,6 +276,8 @@ def _run(case, sched, world):
         it, est = insts[k], ests[k]
         tname = "PersistenceImager" if it["type"] == "imager" else "PersistenceLandscaper"
         X = data_for(it, inp, j)
+        if it["type"] == "imager" and op.get("alias") is not None and X:
+            X = X + [X[int(op["alias"]) % len(X)]]       # same object twice (e.g. resampling with replacement)
         Xkeep = [x.copy() for x in X]
         nj = op.get("n_jobs") if it["type"] == "imager" else None
         if nj is not None and (not isinstance(nj, int) or nj == 0):
@@ -318,10 +322,23 @@ def _run(case, sched, world):
                                 "transform after this fit differs from a fresh twin fitted on the same data only "
                                 "(earlier fits on %r)" % (fitted_on[k][:-1],), opi)
         elif kind in ("transform", "transform2"):
-            if nfits[k] == 0:
-                # transform before any fit is outside the property for the landscaper unless the grid is user-fixed
-                if it["type"] == "landscaper" and not ("start" in it["args"] and "stop" in it["args"]):
-                    continue
+            if nfits[k] == 0 and it["type"] == "landscaper" and not ("start" in it["args"] and "stop" in it["args"]):
+                # never fitted and no user-fixed grid: the output is derived from the call's own data; the only
+                # clauses that apply are "repeatable" and "does not alter the transformer's state"
+                site = "PersistenceLandscaper.transform(unfitted)"
+                before = pub_state(it, est)
+                o1 = out_list(it, _call(site, est.transform, X))
+                after = pub_state(it, est)
+                diff = same_state(before, after)
+                if diff is not None:
+                    raise Violation("transform-leaves-fitted-state", site, diff,
+                                    "%s changed from %r to %r across transform of a never-fitted landscaper"
+                                    % (diff, before[diff], after[diff]), opi)
+                o2 = out_list(it, _call(site, est.transform, X))
+                evals += 2
+                if not same_out(o1, o2):
+                    raise Violation("transform-repeatable", site, "differs", "two transforms of the same input differ", opi)
+                continue
             site = "%s.transform(n_jobs=%s)" % (tname, "None" if nj is None else ("1" if nj == 1 else ">=2"))
             before = pub_state(it, est)
             o1 = out_list(it, _call(site, est.transform, X, **kw))
